@@ -29,7 +29,11 @@ THEOREMS = ['C15_tokens_of_appended_options', 'C15_keywords_prefix',
             'C15_split_like_card', 'C15_split_then_like_re',
             'C15_like_re_recognises', 'C15_like_chain_text', 'C15_chain_depth',
             'C15_like_in_parse_all', 'C15_replace_like_card', 'C15_expand_all',
-            'C15_like_equals_expanded', 'C15_like_mat_void']
+            'C15_like_equals_expanded', 'C15_like_mat_void',
+            'C15_expansion_card', 'C15_like_expansion_card',
+            'C15_expansion_is_override', 'C15_expansion_deck',
+            'C15_importance_dictionary_linked',
+            'C15_like_importance_zero_iff_linked']
 TRUSTED = [
     'hand-written model coq/C15/Model.v (modelled, tied by execution only)',
     'environment of the model, filled per deck from the repository\'s own '
@@ -51,7 +55,7 @@ ASSUMPTIONS = [
 ]
 HEADER = ('From Coq Require Import List NArith ZArith Bool String Ascii '
           'PrimFloat.\nFrom T4V Require Import Base.Str Base.Scalar '
-          'C15.Model C15.Exec.\nOpen Scope string_scope.\n')
+          'C15.Model C15.Canon C15.Exec.\nOpen Scope string_scope.\n')
 
 
 
@@ -91,9 +95,8 @@ def numeric_start(tok):
 
 
 def readings(tok):
-    '''(to_float(tok), int(float(tok)), round(to_float(tok)),
-    int(to_float(tok))) with the repository's to_float; None where the call
-    raises.'''
+    '''(to_float(tok), int(float(tok)), int(to_float(tok))) with the
+    repository's to_float; None where the call raises.'''
     from MIP.mip.datacard import to_float
 
     def attempt(fun):
@@ -102,9 +105,23 @@ def readings(tok):
         except (ValueError, OverflowError):
             return None
     out = (attempt(lambda: to_float(tok)), attempt(lambda: int(float(tok))),
-           attempt(lambda: round(to_float(tok))),
            attempt(lambda: int(to_float(tok))))
     return None if all(v is None for v in out) else out
+
+
+COV = None      # line-coverage tracer, active only around the tied calls
+
+
+class traced:
+    '''Context manager: trace the anchored functions if a tracer is set.'''
+    def __enter__(self):
+        if COV is not None:
+            COV.__enter__()
+
+    def __exit__(self, *exc):
+        if COV is not None:
+            COV.__exit__(*exc)
+        return False
 
 
 class ImplDeck:
@@ -129,7 +146,8 @@ class ImplDeck:
                 for card in parser.cards(blocks='c', skipcomments=True):
                     content = card.content()
                     try:
-                        parts = cellcard.split(content)
+                        with traced():
+                            parts = cellcard.split(content)
                     except Exception as exc:   # pylint: disable=broad-except
                         parts = exc
                     self.cards.append((content, parts))
@@ -148,7 +166,8 @@ class ImplDeck:
                 with contextlib.redirect_stdout(io.StringIO()), \
                         warnings.catch_warnings():
                     warnings.simplefilter('ignore')
-                    cells, skipped = pcell.parse()
+                    with traced():
+                        cells, skipped = pcell.parse()
                 self.result = ('ok', cells, skipped)
             except Exception as exc:           # pylint: disable=broad-except
                 self.result = ('err', exc_class(exc), repr(exc)[:200])
@@ -191,6 +210,8 @@ class ImplDeck:
                     k += 1
         for (mat, _, _) in self.parsed.values():
             toks.update(mat.split())
+        # the multiplier of an xM entry of a FILL array is read on its own
+        toks.update({t[:-1] for t in toks if len(t) > 1 and t.endswith('m')})
         self.num = {}
         self.nf = {}
         for tok in sorted(toks):
@@ -254,7 +275,7 @@ def coq_cell(cell):
         fill = 'None'
     elif isinstance(fid, LatticeSpec):
         fill = (f'(Some (FillLat {coq_bounds(list(fid.bounds))} '
-                f'{clist(cz(u) for u in fid.spec)}))')
+                f'{clist(copt(u, cz) for u in fid.spec)}))')
     else:
         fill = f'(Some (FillU {cz(fid)}))'
     if not cell.trcl:
@@ -271,7 +292,7 @@ def coq_cell(cell):
 
 def coq_case(obs):
     num = clist(cpair(cstr(t), cpair(copt(r[0], cfloat), copt(r[1], cz),
-                                     copt(r[2], cz), copt(r[3], cz)))
+                                     copt(r[2], cz)))
                 for t, r in obs.num.items())
     trs = clist(cpair(cz(k), coq_fl(v)) for k, v in obs.transforms.items())
     norm = clist(cpair(coq_fl(k), (f'Ok {coq_fl(v[1])}' if v[0] == 'ok'
@@ -458,6 +479,14 @@ EDGE_BUT = [
     'trcl=9', 'trcl=1.0', 'trcl=(1 2)', '*trcl=(1 2)', '*trcl=(1 2 3 4)',
     'trcl=(1 0 0 1 0 0 0 1 0 0 0 1)', '*trcl=(1 0 0 0 90 90 90 0 90 90 90 0)',
     '*trcl=(1 2 3 0 90 90 90 0 90 90 90 0 1)', 'trcl=(1 2 3) trcl=(4 5 6)',
+    'lat=1 fill=2', 'fill=2 lat=1', 'fill=1 (1 0 0) lat=2',
+    'lat=1 fill=0:3 1 2i 4', 'lat=1 fill=0:2 0:1 0:0 1 i 3 2m 2.5m j',
+    'lat=1 fill=-1:1 2 2j', 'lat=1 fill=0:3 1 2I 4.0+0', 'lat=1 fill=0:1 i 3',
+    'lat=1 fill=0:2 1 i', 'lat=1 fill=0:2 1 xi 3', 'lat=1 fill=0:2 1 -1i 3',
+    'lat=1 fill=0:2 1 i x', 'lat=1 fill=0:2 j i 3', 'lat=1 fill=0:1 1 m',
+    'lat=1 fill=0:1 1 xm', 'lat=1 fill=0:1 2m', 'lat=1 fill=0:1 j 2m',
+    'lat=1 fill=0:1 xj', 'lat=1 fill=0:1 1 2.5',
+    'lat=1 fill=0:1 1 3.5', 'lat=1 fill=0:4 1 2i 2 r', 'lat=1 fill=0:1 1 dog',
     'trcl=(1 x 3)', '*trcl=(1 2 3 x)', 'trcl', '*trcl', '*TRCL u=3', '*fill=2',
     '*FILL=1 imp:n=1', '*fill=2 trcl=(1 2 3)', 'imp:n=1.0+0', 'imp:n=2.5d-1',
     'trcl=(1.0+0 2 3)', 'trcl=1.0+0', 'fill=2 (1.5d0 0 0)', 'fill=2 (3.0+0)',
@@ -486,6 +515,7 @@ EDGE_BUT = [
 
 def gen_edge_deck(rng, base_deck, index=None):
     '''A valid deck plus one or two LIKE cards with raw BUT text.'''
+    first_index = index
     deck = dict(base_deck)
     cells = list(base_deck['cells'])
     ids = {c['id'] for c in cells}
@@ -495,18 +525,35 @@ def gen_edge_deck(rng, base_deck, index=None):
         ids.add(cid)
         like = rng.choice(targets) if rng.random() < 0.93 else 777
         raw = rng.choice(EDGE_BUT)
+        pinned = index is not None and index < len(EDGE_BUT)
         if index is not None:
-            # every edge text is used at least once per run
+            # every edge text is used at least once per run; the first time
+            # alone, on an existing cell, as the first card of the deck (so
+            # that no other error hides it)
             raw, index = EDGE_BUT[index % len(EDGE_BUT)], None
-        if rng.random() < 0.3:
+        if pinned:
+            like = rng.choice(targets)
+        elif rng.random() < 0.3:
             raw = raw + ' ' + rng.choice(EDGE_BUT)
         if rng.random() < 0.3:
             raw = raw.upper()
         cell = {'id': cid, 'like': like, 'but': {'raw': raw},
                 'text': f'{cid} like {like} but {raw}'}
-        pos = rng.randrange(len(cells) + 1)
+        pos = 0 if pinned else rng.randrange(len(cells) + 1)
         cells.insert(pos, cell)
         targets.append(cid)
+    forced = first_index is not None and first_index >= len(EDGE_BUT) \
+        and first_index % 6 == 5
+    if rng.random() < 0.08 or forced:
+        # an explicit card whose geometry does not parse, and a copy of it
+        cid = rng.choice([n for n in range(460, 480) if n not in ids])
+        bad = rng.choice(['-900 : : -1', '(-900 1', '-900 #', '1 -'])
+        cells.insert(0 if forced else len(cells),
+                     {'id': cid, 'mat': 0, 'rho': None, 'expr': ('s', -900),
+                      'text': f'{cid} 0 {bad} imp:n=1'})
+        if rng.random() < 0.5:
+            cells.append({'id': cid + 20, 'like': cid, 'but': {'raw': 'u=3'},
+                          'text': f'{cid + 20} like {cid} but u=3'})
     deck['cells'] = cells
     if deck.get('data'):
         # keep the data card in step with the number of cells, sometimes not
@@ -519,7 +566,13 @@ def edge_lattice_params(rng, deck):
     from t4_geom_convert.Kernel.Volume.Lattice import parse_ranges
     params = {}
     for cell in deck['cells']:
-        if cell['id'] >= 400 and rng.random() < 0.5:
+        raw = str(cell.get('but', {}).get('raw', '')).lower()
+        coin = rng.random() < 0.5
+        if raw.startswith('lat=1 fill=2'):
+            coin = False        # MissingLatticeOptError
+        elif raw.startswith('fill=2 lat=1') or raw.startswith('fill=1 (1 0 0)'):
+            coin = True         # homogeneous lattice from the --lattice option
+        if cell['id'] >= 400 and coin:
             params[cell['id']] = parse_ranges(
                 rng.choice([['0:1'], ['0:1', '0:0', '-1:1']]))
     return params
@@ -602,6 +655,32 @@ def corpus_failures():
 # ---------------------------------------------------------------------------
 
 def run(res, tier, seed, proofs_ok):
+    '''Ties and sweeps under a line-coverage tracer restricted to the anchored
+    functions: every reachable line must be executed by the tied calls.'''
+    import c15_cov
+    global COV
+    cov = COV = c15_cov.LineCov(c15_cov.anchored_functions())
+    try:
+        _run(res, tier, seed, proofs_ok)
+    finally:
+        COV = None
+    total, missing = cov.missing(c15_cov.UNREACHABLE)
+    res.obligation('coverage: the tied calls (cellcard.split, '
+                   'ParseMCNPCell.parse) execute every reachable line of the '
+                   f'anchored functions ({total} lines of {len(cov.codes)} code '
+                   'objects)', not missing, f'never executed: {missing[:6]}')
+    res.extra['anchored_lines'] = total
+    if missing:
+        res.violation('harness-error',
+                      'generated inputs no longer reach these lines of the '
+                      'anchored code (strengthen the generators): '
+                      f'{missing[:8]}',
+                      {'theorem_or_correspondence': 'coverage',
+                       'input': {'lines': [list(m) for m in missing[:30]]}},
+                      found_input=False)
+
+
+def _run(res, tier, seed, proofs_ok):
     rng = random.Random(seed)
     quick = tier == 'quick'
     n_valid = 150 if quick else 1200
@@ -620,6 +699,12 @@ def run(res, tier, seed, proofs_ok):
         'keywords, LAT, FILL arrays, unknown keywords, missing base); '
         'non-trivial = a deck with at least one LIKE card; distinct by text')
 
+    res.extra['tier_depth'] = (
+        'quick: 150 valid + 16 importance-lowering + 12 MAT=0 + 160 edge decks, '
+        'tie:canon on every second deck, 40 decks x 60 points; thorough: 1200 + '
+        '120 + 80 + 1200 decks (every edge text about 9 times, with random '
+        'companions and bases), tie:canon and the canon-defined census on every '
+        'deck, 300 decks x 60 points')
     # ---- 1. corpus of minimised cases (former findings included) ----
     for name, a_text, b_text, detail in corpus_failures():
         res.violation('impl-violation',
@@ -648,8 +733,19 @@ def run(res, tier, seed, proofs_ok):
         res.count('stream:' + ('imp-decreasing' if decreasing else
                                'void-mat' if voiding else 'valid'))
         for c in deck['cells']:
-            for key in c.get('but', {}):
+            for key, val in c.get('but', {}).items():
                 res.count('but:' + key)
+                if key == 'trcl' or (key == 'fill' and val.get('tr') is not None):
+                    tr = val if key == 'trcl' else val['tr']
+                    kind = 'by-number' if isinstance(tr, tuple) else \
+                        ('starred' if tr.get('star') else
+                         'translation' if tr.get('B') is None else 'matrix')
+                    res.count(f'but:{key}:{kind}')
+                if key == 'fill':
+                    res.count('but:fill:' + ('array' if 'ranges' in val
+                                             else 'universe'))
+                if key == 'imp':
+                    res.count('but:imp:' + ','.join(sorted(val)))
         do_points = n_pts_done < n_points and not decreasing \
             and not voiding
         failures, obs = sweep_deck(res, deck, text, rng, do_points)
@@ -681,6 +777,7 @@ def run(res, tier, seed, proofs_ok):
         deck = gen_edge_deck(rng, base, index=i)
         text = gen.render(deck, rng)
         obs = ImplDeck(text, edge_lattice_params(rng, deck))
+        obs.edge = True
         res.seen(text, nontrivial=True)
         res.count('stream:edge')
         if obs.setup_error is not None:
@@ -716,6 +813,111 @@ def run(res, tier, seed, proofs_ok):
                                              obs.lattice_params.items()}},
                        'theorem_or_correspondence': 'tie:deck'},
                       found_input=False)
+
+    # ---- 2b. the explicit card constructed in the model ----
+    csel = list(range(len(cases))) if not quick else \
+        [k for k in range(len(cases)) if k % 2 == 0]
+    bad, errs = common.run_case_files(
+        'c15_canon', HEADER, 'tables * table * out', 'check_canon',
+        [cases[k] for k in csel], chunk=30)
+    bad = [csel[k] for k in bad]
+    res.obligation(f'tie:canon ({len(csel)} decks: for every card, the '
+                   'explicit card built by Canon.canon_card — word level and '
+                   'as text — parses in the model to the cell of the LIKE '
+                   'card)', not bad and not errs,
+                   f'{len(bad)} decks {errs[:1]}')
+    for idx in bad[:10]:
+        text, obs = meta[idx]
+        res.violation('correspondence',
+                      'the explicit card constructed by the model for a LIKE '
+                      'card does not parse to the same cell',
+                      {'input': {'deck': text},
+                       'theorem_or_correspondence': 'tie:canon'},
+                      found_input=False)
+    # informational (how often the construction is defined): on a sample in
+    # the quick tier, on everything in the thorough tier
+    sample = list(range(len(cases))) if not quick else \
+        [k for k in range(len(cases)) if k % 4 == 0]
+    und_s, errs = common.run_case_files(
+        'c15_canondef', HEADER, 'tables * table * out', 'canon_defined',
+        [cases[k] for k in sample], chunk=30)
+    undefined = [sample[k] for k in und_s]
+    meta_all, meta = meta, [meta[k] for k in sample]
+    undefined = [sample.index(k) for k in undefined]
+    n_struct = sum(1 for _, o in meta if not getattr(o, 'edge', False))
+    und_struct = sum(1 for k in undefined if not getattr(meta[k][1], 'edge',
+                                                         False))
+    res.count('canon-defined:generated-decks', n_struct - und_struct)
+    res.count('canon-undefined:generated-decks', und_struct)
+    res.count('canon-defined:edge-decks',
+              len(meta) - n_struct - (len(undefined) - und_struct))
+    res.count('canon-undefined:edge-decks', len(undefined) - und_struct)
+    meta = meta_all
+
+    # ---- 2c. the constructed cards handed to the implementation ----
+    n_impl = 48 if quick else 400
+    picked = [k for k, (_, o) in enumerate(meta)
+              if not getattr(o, 'edge', False) and o.result[0] == 'ok'][:n_impl]
+    sep = '=====DECK====='
+    n_checked = 0
+    for start in range(0, len(picked), 24):
+        part = picked[start:start + 24]
+        term = ' ++ '.join(f'(canon_dump {cases[k]} ++ "{sep}" ++ nl)'
+                           for k in part)
+        out, raw = common.coq_eval(HEADER + 'Import ListNotations.\n', term,
+                                   timeout=600)
+        if out is None:
+            res.violation('harness-error', 'canon_dump did not evaluate: '
+                          + raw[-300:], {'raw': raw[-1000:]},
+                          found_input=False)
+            break
+        body = out.strip()
+        body = body[1:body.rindex('"')].replace('""', '"')
+        dumps = body.split(sep + '\n')[:-1]
+        for k, dump in zip(part, dumps):
+            text, obs = meta[k]
+            cards = {}
+            for line in dump.split('\n'):
+                if line:
+                    key, mat, geom, opts = line.split('|')
+                    cards[int(key)] = f'{key} {mat}{geom} {opts}'.rstrip()
+            if set(cards) != set(obs.parsed):
+                res.count('canon-impl:undefined')
+                continue
+            head, _, tail = text.partition('\n\n')
+            title = head.split('\n')[0]
+            ctext = '\n'.join([title] + [gen.deckmod.wrap(cards[k2])
+                                         for k2 in obs.parsed]) + '\n\n' + tail
+            cobs = ImplDeck(ctext, obs.lattice_params)
+            n_checked += 1
+            diffs = [('*', 'setup', repr(cobs.setup_error))] \
+                if cobs.setup_error is not None else diff_cells(obs, cobs)
+            if diffs:
+                res.violation('impl-violation',
+                              '[canon-impl] the deck of explicit cards '
+                              'constructed by the model (every keyword once) '
+                              'is not parsed like the LIKE deck: '
+                              f'{diffs[:3]}',
+                              {'input': {'deck': text, 'expanded': ctext},
+                               'oracle': 'canon-impl'}, found_input=True)
+            elif n_checked <= (16 if quick else 120):
+                # ... and the written files are identical after the header
+                ca = impl.convert(text, keep_stdout=False)
+                cb = impl.convert(ctext, keep_stdout=False)
+                res.count('canon-impl:files')
+                if ca.ok != cb.ok or (ca.ok and strip_header(ca.text)
+                                      != strip_header(cb.text)):
+                    res.violation('impl-violation',
+                                  '[canon-impl] the written file of the deck '
+                                  'of model-constructed explicit cards differs '
+                                  f'from the LIKE deck\'s: {ca} / {cb}',
+                                  {'input': {'deck': text, 'expanded': ctext},
+                                   'oracle': 'canon-impl-file'},
+                                  found_input=True)
+    res.count('canon-impl:decks', n_checked)
+    res.obligation(f'sweep:canon-impl ({n_checked} decks: the implementation '
+                   'parses the deck of model-constructed explicit cards to the '
+                   'cells of the LIKE deck)', n_checked > 0, '')
 
     # ---- 3. split of LIKE cards ----
     uniq = {}
